@@ -347,14 +347,20 @@ def classify(exp, mod):
             return fr
     # vec (len passed in)
     m = re.match(r'^for v in value\.iter\(\) \{ (\w+)::encode\(asm, v\)\?; \} Ok\(\(\)\)$', eb)
-    md = re.match(r'^if len > (\w+) \{ return Err\(RtcmError::CapacityExceeded\); \} let mut value = DataVec::new\(\); for _ in 0\.\.len \{ let v = (\w+)::decode\(par\)\?; value\.push\(v\); \} Ok\(value\)$', db)
-    if m and md and 'len: usize' in fr.dec_sig:
-        fr.kind, fr.elem, fr.cap = 'vec', m.group(1), md.group(1)
+    # the capacity in the contract is the capacity of the list TYPE (DataVec<_, CAP>), not whatever the decoder compares with; the
+    # check itself may be missing or altered - then Verus decides (over_capacity_rejected, push precondition), not the shape matcher
+    alias_cap = None
+    if fr.type_alias is not None:
+        ma = re.search(r'DataVec<\s*[\w:]+\s*,\s*(\w+)\s*>', exp.text[fr.type_alias.start:fr.type_alias.end])
+        alias_cap = ma.group(1) if ma else None
+    md = re.match(r'^(?:if len > (\w+) \{ return Err\(RtcmError::CapacityExceeded\); \} )?let mut value = DataVec::new\(\); for _ in 0\.\.len \{ let v = (\w+)::decode\(par\)\?; value\.push\(v\); \} Ok\(value\)$', db)
+    if m and md and 'len: usize' in fr.dec_sig and alias_cap:
+        fr.kind, fr.elem, fr.cap = 'vec', m.group(1), alias_cap
         return fr
     m = re.match(r'^let len = value\.len\(\) as u16; asm\.put::<U16>\(len, (\d+)\)\?; for v in value\.iter\(\) \{ (\w+)::encode\(asm, v\)\?; \} Ok\(\(\)\)$', eb)
-    md = re.match(r'^let len = par\.parse::<U16>\((\d+)\)\? as usize; if len > (\w+) \{ return Err\(RtcmError::CapacityExceeded\); \} let mut value = DataVec::new\(\); for _ in 0\.\.len \{ let v = (\w+)::decode\(par\)\?; value\.push\(v\); \} Ok\(value\)$', db)
-    if m and md:
-        fr.kind, fr.elem, fr.cap, fr.lb, fr.lb_dec = 'vec_len', m.group(2), md.group(2), int(m.group(1)), int(md.group(1))
+    md = re.match(r'^let len = [^;]*?par\.parse::<U16>\((\d+)\)\?[^;]*; (?:if len > (\w+) \{ return Err\(RtcmError::CapacityExceeded\); \} )?let mut value = DataVec::new\(\); for _ in 0\.\.len \{ let v = (\w+)::decode\(par\)\?; value\.push\(v\); \} Ok\(value\)$', db)
+    if m and md and alias_cap:
+        fr.kind, fr.elem, fr.cap, fr.lb, fr.lb_dec = 'vec_len', m.group(2), alias_cap, int(m.group(1)), int(md.group(1))
         return fr
     m = re.match(r'^for v in value\.iter\(\) \{ (\w+)::encode\(asm, v\)\?; \} Ok\(\(\)\)$', eb)
     md = re.match(r'^let mut value = Grid16P::new\(\); for v in value\.iter_mut\(\) \{ \*v = (\w+)::decode\(par\)\?; \} Ok\(value\)$', db)
@@ -362,9 +368,13 @@ def classify(exp, mod):
         fr.kind, fr.elem = 'grid', m.group(1)
         return fr
     m = re.match(r'^asm\.put::<U8>\(value\.len\(\) as u8, (\d+)\)\?; for v in value\.iter\(\) \{ asm\.put::<U8>\(\*v, 8\)\?; \} Ok\(\(\)\)$', eb)
-    md = re.match(r'^let len = par\.parse::<U8>\((\d+)\)\?; if len as usize > (\w+) \{ return Err\(RtcmError::CapacityExceeded\); \} let mut value = Df88591String::new\(\); for _ in 0\.\.len \{ let v = par\.parse::<U8>\(8\)\?; value\.push\(v\); \} Ok\(value\)$', db)
-    if m and md:
-        fr.kind, fr.cap, fr.lb, fr.lb_dec = 'str_len', md.group(2), int(m.group(1)), int(md.group(1))
+    md = re.match(r'^let len = par\.parse::<U8>\((\d+)\)\?; (?:if len as usize > (\w+) \{ return Err\(RtcmError::CapacityExceeded\); \} )?let mut value = Df88591String::new\(\); for _ in 0\.\.len \{ let v = par\.parse::<U8>\(8\)\?; value\.push\(v\); \} Ok\(value\)$', db)
+    str_cap = None
+    if fr.type_alias is not None:
+        ms = re.search(r'Df88591String<\s*(\w+)\s*>', exp.text[fr.type_alias.start:fr.type_alias.end])
+        str_cap = ms.group(1) if ms else None
+    if m and md and str_cap:
+        fr.kind, fr.cap, fr.lb, fr.lb_dec = 'str_len', str_cap, int(m.group(1)), int(md.group(1))
         return fr
     return fr
 
@@ -500,8 +510,8 @@ def emit_vec(vf, exp, path, fr, ind, with_len):
                            '(old(par).rest().len() >= %d && (exists|c: int| %s < c < crate::pow2(%d) && crate::bits_of_int(c, %d) == old(par).rest().subrange(0, %d))) ==> r is Err'
                            % (fr.lb_dec, fr.cap, fr.lb_dec, fr.lb_dec, fr.lb_dec)))
         start = 'let ghost verif_s0 = par.rest(); let ghost mut verif_k: int = 0;'
-        sp.inserts.append(('before', 'let len = par.parse', 0, start))
-        sp.inserts.append(('after', 'let len = par.parse', 0,
+        sp.inserts.append(('before', 'let len =', 0, start))
+        sp.inserts.append(('after', 'let len =', 0,
                            'proof { crate::lemma_bits_len(len as int, %d); crate::lemma_consume(verif_s0, 0, %d); verif_k = %d; '
                            'assert forall|c: int| %s < c < crate::pow2(%d) && crate::bits_of_int(c, %d) == verif_s0.subrange(0, %d) implies c == len as int by { crate::lemma_bits_inj(c, len as int, %d); } }'
                            % (fr.lb_dec, fr.lb_dec, fr.lb_dec, fr.cap, fr.lb_dec, fr.lb_dec, fr.lb_dec, fr.lb_dec)))
@@ -511,8 +521,9 @@ def emit_vec(vf, exp, path, fr, ind, with_len):
         sp.ensures.append(('l2.%s.decode.over_capacity_rejected' % pid, {'C15', 'C02'}, 'len > %s ==> r is Err && r->Err_0 is CapacityExceeded' % fr.cap))
         sp.inserts.append(('before', 'let mut value = DataVec::new();', 0, 'let ghost verif_s0 = par.rest(); let ghost mut verif_k: int = 0;'))
         pre_bits = 'Seq::<bool>::empty()'
-    sp.inserts.append(('before', 'return Err(RtcmError::CapacityExceeded);', 0,
-                       'proof { assert(len > %s); }  // C15: a capacity error only when the count really exceeds the capacity' % fr.cap))
+    if 'return Err(RtcmError::CapacityExceeded);' in fr.dec_body:
+        sp.inserts.append(('before', 'return Err(RtcmError::CapacityExceeded);', 0,
+                           'proof { assert(len > %s); }  // C15: a capacity error only when the count really exceeds the capacity' % fr.cap))
     sp.loops[0] = ('''    invariant
         value@.len() == verif_i0, len <= %(cap)s, verif_s0 == old(par).rest(),
         old(par).nz() ==> par.nz(),
@@ -572,8 +583,9 @@ def emit_str(vf, exp, path, fr, ind):
                        'assert forall|c: int| %s < c < crate::pow2(%d) && crate::bits_of_int(c, %d) == verif_s0.subrange(0, %d) implies c == len as int by { crate::lemma_bits_inj(c, len as int, %d); } }'
                        % (lbd, lbd, lbd, fr.cap, lbd, lbd, lbd, lbd)))
     pre_bits = 'crate::bits_of_int(len as int, %d)' % lbd
-    sp.inserts.append(('before', 'return Err(RtcmError::CapacityExceeded);', 0,
-                       'proof { assert(len as usize > %s); }  // C15: a capacity error only when the count really exceeds the capacity' % fr.cap))
+    if 'return Err(RtcmError::CapacityExceeded);' in fr.dec_body:
+        sp.inserts.append(('before', 'return Err(RtcmError::CapacityExceeded);', 0,
+                           'proof { assert(len as usize > %s); }  // C15: a capacity error only when the count really exceeds the capacity' % fr.cap))
     sp.loops[0] = ('''    invariant
         value@.len() == verif_i0, len as usize <= %(cap)s, verif_s0 == old(par).rest(),
         old(par).nz() ==> par.nz(),
